@@ -1,11 +1,11 @@
 SPECIFICATION Spec
-CONSTANTS MaxBlock = 5 MaxOps = 9 MaxLen = 12
-  Ms = {0, 1, 2, 9}
-  Takes = {0, 1, 2}
-  Srcs = {"iter", "list", "tuple"}
-  SplitBufs <- SplitBufsThorough
-  Rets = {"gen", "fresh", "own", "iter", "tuple"}
-  Variant = "intended"
+CONSTANTS MaxBlock = 2 MaxOps = 5 MaxLen = 0
+  Ms = {1, 2}
+  Takes = {0}
+  Srcs = {"iter"}
+  SplitBufs <- SplitBufsQuick
+  Rets = {"gen", "own"}
+  Variant = "nocopy"
 INVARIANT RunIsBlocks
 INVARIANT RunPrefix
 INVARIANT EmptyFlowNothing
@@ -20,6 +20,5 @@ INVARIANT AfterRequest
 INVARIANT OneBlock
 INVARIANT SecondRequestEmpty
 INVARIANT SplitEqRun
-INVARIANT SplitPerBuffer
 INVARIANT SeqEqRun
 CHECK_DEADLOCK FALSE
